@@ -193,6 +193,13 @@ pub fn gen_case(t: &mut Tape, feature_unimock: bool) -> Case {
     Case { src, summary, nontrivial, classes }
 }
 
+
+/// the same program with the attribute line removed and without anything that names `TheTrait`
+fn twin_of(src: &str) -> String {
+    let t: String = src.lines().filter(|l| !l.starts_with("#[::entrait::entrait(") && !l.contains("TheTrait")).collect::<Vec<_>>().join("\n") + "\npub fn run() -> Vec<String> { vec![] }\n";
+    t.replace("pub fn run() -> Vec<String> {\n    let mut fails = vec![];\n    fails\n}", "")
+}
+
 fn run_single(name: &str, feature_unimock: bool, src: &str) -> Option<(String, String)> {
     let mut b = Batch::new(name, Opts { feature_unimock, members: 1, ..Default::default() });
     b.add("c00000", src.to_string());
@@ -224,41 +231,12 @@ pub fn run(ctx: &mut Ctx) {
         let out = batch.build_and_run();
         batch.cleanup();
         super::common::crosscheck_records(ctx, &out.records);
-        if let Some((id, d)) = out.compile_failed.iter().next() {
-            let i: usize = id[1..].parse().unwrap_or(0);
-            // Errors in generated code carry the spans of the user's tokens, so the diagnostic cannot tell who is at fault.
-            // Plain twin: the same program with the attribute line removed and without the `TheTrait` probes must compile.
-            if d.iter().any(|x| x.code == "E0277") {
-                let twin: String = cases[i]
-                    .src
-                    .lines()
-                    .filter(|l| !l.starts_with("#[::entrait::entrait(") && !l.contains("TheTrait"))
-                    .collect::<Vec<_>>()
-                    .join("\n")
-                    + "\npub fn run() -> Vec<String> { vec![] }\n";
-                let twin = twin.replace("pub fn run() -> Vec<String> {\n    let mut fails = vec![];\n    fails\n}", "");
-                let mut tb = Batch::new("c04-twin", Opts { feature_unimock, members: 1, check_only: true, ..Default::default() });
-                tb.add("c00000", twin);
-                let tout = tb.build_and_run();
-                tb.cleanup();
-                if tout.compile_failed.is_empty() {
-                    ctx.count_eval();
-                    ctx.violation(
-                        &format!(
-                            "the generated impl does not type-check although the program without the attribute does; a declared dependency bound was dropped: {} -- in {}",
-                            d.iter().find(|x| x.code == "E0277").map(|x| x.message.clone()).unwrap_or_default(),
-                            cases[i].summary
-                        ),
-                        &json!({"engine": "E2", "feature_unimock": feature_unimock, "src": cases[i].src, "summary": cases[i].summary}),
-                    );
-                    return;
-                }
-            }
-            crate::ev::inconclusive(&format!("C04 program does not compile (generator fault or C03's business): {}\n{}", cases[i].summary, d.first().map(|x| x.rendered.clone()).unwrap_or_default()));
-        }
         for (id, (status, msg)) in &out.ran {
             let i: usize = id[1..].parse().unwrap_or(0);
             let case = &cases[i];
+            if msg.contains("__REMOVED__") {
+                continue;
+            }
             ctx.count_eval();
             for c in &case.classes {
                 ctx.class(c);
@@ -298,6 +276,22 @@ pub fn run(ctx: &mut Ctx) {
                 &json!({"engine": "E2", "feature_unimock": feature_unimock, "src": best.1, "summary": best.3}),
             );
             return;
+        }
+        // programs that do not compile are judged after the runnable ones, against their attribute-free twin
+        let failed: Vec<(String, String, String, String)> = out
+            .compile_failed
+            .iter()
+            .map(|(id, d)| {
+                let i: usize = id[1..].parse().unwrap_or(0);
+                (cases[i].summary.clone(), cases[i].src.clone(), twin_of(&cases[i].src), d.first().map(|x| format!("{} {}", x.code, x.message)).unwrap_or_default())
+            })
+            .collect();
+        let (violations, faults) = super::common::judge_compile_failures(ctx, "c04", feature_unimock, &failed, "the generated impl does not type-check for the declared bounds");
+        if violations > 0 {
+            return;
+        }
+        if faults > 0 {
+            crate::ev::inconclusive(&format!("{faults} C04 programs have a twin that does not compile (generator fault); first: {:?}", failed.first().map(|f| (&f.0, &f.3))));
         }
     }
 }
